@@ -5,7 +5,7 @@ use crate::common::{viol, Opts};
 use pegx::report::Report;
 use pest_typed::predefined_node::{AtomicRepeat, Push, RepExact, RepMin, RepMinMax, SkipChar, Str, POP};
 use pest_typed::tracker::Tracker;
-use pest_typed::{Position, Span, Stack, StringWrapper, TypedNode};
+use pest_typed::{NeverFailedTypedNode, Position, Span, Stack, StringWrapper, TypedNode};
 use refpeg::enumerate;
 use refpeg::json::J;
 use std::fmt::Debug;
@@ -292,6 +292,55 @@ fn compare<'i, N: TypedNode<'i, R> + Debug>(
     }
 }
 
+/// The never-failing entry points (`parse_with` / `check_with`) of a repetition with lower bound 0
+/// must agree with the fallible ones.
+fn never_failed<'i, N: TypedNode<'i, R> + NeverFailedTypedNode<'i, R> + Debug>(what: &str, inputs: &'i [String], rep: &mut Report) {
+    for init in INITS {
+        for input in inputs {
+            rep.cases += 1;
+            let r = std::panic::catch_unwind(|| {
+                let mk = || {
+                    let mut st: Stack<Span<'i>> = Stack::new();
+                    for t in init.iter() {
+                        st.push(Span::new_full(t));
+                    }
+                    st
+                };
+                let stack_of = |st: &Stack<Span<'i>>| -> Vec<String> {
+                    let n = st.len();
+                    if n == 0 { vec![] } else { st[0..n].iter().map(|s| s.as_str().to_string()).collect() }
+                };
+                let pos = Position::from_start(input.as_str());
+                let mut s1 = mk();
+                let (p1, node) = <N as NeverFailedTypedNode<'i, R>>::parse_with(pos, &mut s1);
+                let mut s2 = mk();
+                let p2 = <N as NeverFailedTypedNode<'i, R>>::check_with(pos, &mut s2);
+                let (g, dbg) = drive::<N>(input, init, false);
+                (p1.pos(), format!("{:?}", node), stack_of(&s1), p2.pos(), stack_of(&s2), g, dbg)
+            });
+            match r {
+                Ok((p1, d1, st1, p2, st2, g, dbg)) => {
+                    rep.nontrivial += (p1 > 0) as u64;
+                    if !g.ok || g.end != p1 || g.end != p2 || g.stack != st1 || g.stack != st2 || dbg.as_deref() != Some(d1.as_str()) {
+                        rep.violation(viol(
+                            "C19",
+                            "never-failed-entry-points-differ",
+                            input,
+                            what.to_string(),
+                            0,
+                            0,
+                            format!("try_parse_partial_with: ok={} end={} stack={:?}", g.ok, g.end, g.stack),
+                            format!("parse_with end={} stack={:?}; check_with end={} stack={:?}", p1, st1, p2, st2),
+                            format!("init {:?}", init),
+                        ));
+                    }
+                }
+                Err(_) => rep.violation(viol("C19", "panic", input, what.to_string(), 0, 0, "a result".into(), "panic".into(), format!("init {:?}", init))),
+            }
+        }
+    }
+}
+
 /// Number of top-level elements in the Debug rendering `... { content: [e1, e2, ..] }`.
 fn count_top(debug: &str) -> Option<usize> {
     let start = debug.find("content: [")? + "content: [".len();
@@ -441,6 +490,15 @@ pub fn run(o: &Opts) -> Report {
     let mut rep = Report::default();
     all(&inputs, &mut rep);
     all_zero(&inputs, &mut rep);
+    never_failed::<RepMin<Str<A>, Ig, 0, 0>>("RepMin<\"a\",SKIP=0,0>::parse_with", &inputs, &mut rep);
+    never_failed::<RepMin<Str<A>, Ig, 1, 0>>("RepMin<\"a\",SKIP=1,0>::parse_with", &inputs, &mut rep);
+    never_failed::<RepMin<<EPop as Elem>::Node<'_>, Ig, 1, 0>>("RepMin<POP \"a\",SKIP=1,0>::parse_with", &inputs, &mut rep);
+    never_failed::<RepMinMax<Str<A>, Ig, 0, 0, 2>>("RepMinMax<\"a\",SKIP=0,0,2>::parse_with", &inputs, &mut rep);
+    never_failed::<RepMinMax<<EAB as Elem>::Node<'_>, Ig, 1, 0, 3>>("RepMinMax<(\"ab\"|\"a\"),SKIP=1,0,3>::parse_with", &inputs, &mut rep);
+    never_failed::<RepMinMax<<EPush as Elem>::Node<'_>, Ig, 1, 0, 2>>("RepMinMax<PUSH..,SKIP=1,0,2>::parse_with", &inputs, &mut rep);
+    never_failed::<AtomicRepeat<Str<A>>>("AtomicRepeat<\"a\">::parse_with", &inputs, &mut rep);
+    never_failed::<AtomicRepeat<<EPop as Elem>::Node<'_>>>("AtomicRepeat<POP \"a\">::parse_with", &inputs, &mut rep);
+    rep.rules += 8;
     rep.max_len_done = n;
     rep
 }
